@@ -168,6 +168,41 @@ def oracle(case, impl):
             bad.append(('converted quantity is not in the requested unit', {'from': op[1], 'to': op[2]}))
         if r1[0] == 'ok' and not math.isclose(r1[1], r1[3], rel_tol=1e-9):
             bad.append(('get_conversion_factor (%r) differs from convert(1 unit) (%r)' % (r1[3], r1[1]), {'from': op[1], 'to': op[2]}))
+    # absolute value of every conversion along the rules, from the SI meaning of all units involved (reference vectors
+    # written independently in c07): 1 a = scale(a) SI; each rule multiplies / divides by K = kq * symbols * scale(kunit);
+    # the result is read in b
+    known = c07.reference_vectors({'ops': [['new', -1]] + [op for op in case['ops'] if op[0] == 'add']})
+
+    def si_scale(t):
+        v = c07.reference_term(known, t)
+        if v is None:
+            return None
+        x = 1.0
+        for g, e in v.items():
+            if g > 0:
+                x *= float(g) ** float(e)
+        return x
+    kfac = {}
+    for r in case['rules']:
+        ks = si_scale(r['kunit'])
+        if ks is None:
+            continue
+        kv = float(Fraction(c07.frac(r['kq']))) * ks
+        for s_ in r['ksym']:
+            kv *= SYMVALS[s_]
+        kfac[(r['from'][2][0], r['to'][2][0])] = 1.0 / kv if r['div'] else kv
+    if ('X', 'Y') in kfac and ('Y', 'Z') in kfac:
+        kfac[('X', 'Z')] = kfac[('X', 'Y')] * kfac[('Y', 'Z')]
+    for (op, r1) in after:
+        s, t = tag(op[1]), tag(op[2])
+        if r1[0] == 'ok' and (s, t) in kfac:
+            sa, sb = si_scale(op[1]), si_scale(op[2])
+            if sa is not None and sb is not None:
+                want = sa * kfac[(s, t)] / sb
+                if not math.isclose(r1[1], want, rel_tol=1e-8):
+                    bad.append(('conversion along the rule gives %r, but 1 source unit = %r SI, the rule factor is %r SI and the '
+                                'target unit is %r SI: expected %r' % (r1[1], sa, kfac[(s, t)], sb, want),
+                                {'from': op[1], 'to': op[2]}))
     # unit independence: result(a, b) = factor(a, a') x result(a', b') x factor(b', b) for all spellings of the two dimensions
     for (a, b), r in res.items():
         if r[0] != 'ok':
